@@ -36,7 +36,7 @@ def random_history(rng, nclients, nnames, steps):
             dest = ('n', rng.randint(1, nnames)) if rng.random() < 0.5 else ('u', rng.randint(1, max(1, used + 1)))
             a = ('Send', (rng.choice(live), dest, rng.choice(['call', 'return', 'error', 'signal']), rng.random() < 0.4))
         elif r < 0.62:
-            a = ('ToBus', (rng.choice(live), rng.choice(['GetId', 'HelloAgain', 'NoSuchMethod', 'SignalToBus'])))
+            a = ('ToBus', (rng.choice(live), rng.choice(['GetId', 'HelloAgain', 'NoSuchMethod', 'SignalToBus'] + sorted(bd.BUSCALLS))))
         elif r < 0.76:
             a = ('AddMatch', (rng.choice(live), rng.choice(['R1', 'R2', 'R3', 'R4', 'R5', 'R6', 'R7'])))
         elif r < 0.84:
